@@ -547,7 +547,7 @@ def run(ctx):
         check_backfill(ctx, *gen_backfill_case(ctx.rng))
     for _ in range(15 if quick else 80):
         check_reorder(ctx, *gen_reorder_case(ctx.rng))
-    run_e2e(ctx, 110 if quick else 500)
+    run_e2e(ctx, 110 if quick else 400)
     if not quick:
         run_shapes(ctx, 4, 6, budget_s=480)
 
